@@ -131,7 +131,10 @@ type CT struct {
 	Overrides map[string]string
 	DupKeys   []string
 	BadNames  []string
+	// WrongVocabulary is set when the root is not {content-types namespace}Types: no consumer finds a single entry then
+	WrongVocabulary string
 }
+
 
 func (p *Package) ContentTypes() (*CT, bool) {
 	t, pr := p.Tree("[Content_Types].xml")
@@ -139,7 +142,14 @@ func (p *Package) ContentTypes() (*CT, bool) {
 		return nil, false
 	}
 	ct := &CT{Defaults: map[string]string{}, Overrides: map[string]string{}}
+	if !t.Is(NsCT, "Types") {
+		ct.WrongVocabulary = fmt.Sprintf("root element {%s}%s", t.Space, t.Local)
+		return ct, true
+	}
 	for _, c := range t.Children {
+		if c.Space != NsCT {
+			continue
+		}
 		switch c.Local {
 		case "Default":
 			e, _ := c.Attr("", "Extension")
@@ -214,8 +224,11 @@ func (p *Package) Rels(relsPart string) ([]Rel, bool) {
 		return nil, false
 	}
 	var out []Rel
+	if !t.Is(NsRel, "Relationships") {
+		return nil, true // not the relationships vocabulary: no consumer finds a relationship in it (reported by WrongRelsVocabulary)
+	}
 	for _, c := range t.Children {
-		if c.Local != "Relationship" {
+		if !c.Is(NsRel, "Relationship") {
 			continue
 		}
 		var r Rel
@@ -279,6 +292,16 @@ func (p *Package) CheckC01() []Problem {
 	if !p.Has("[Content_Types].xml") {
 		out = append(out, Problem{"content-types", "content-types/part-missing", "[Content_Types].xml missing"})
 	} else if ct, ok := p.ContentTypes(); ok {
+		if ct.WrongVocabulary != "" {
+			out = append(out, Problem{"content-types", "content-types/not-the-content-types-vocabulary", "[Content_Types].xml: " + ct.WrongVocabulary + " instead of {" + NsCT + "}Types"})
+		}
+		for _, n := range names {
+			if strings.HasSuffix(n, ".rels") {
+				if t, pr := p.Tree(n); t != nil && len(pr) == 0 && !t.Is(NsRel, "Relationships") {
+					out = append(out, Problem{"main-part", "main-part/not-the-relationships-vocabulary/" + Class(n), fmt.Sprintf("%s: root element {%s}%s instead of {%s}Relationships", n, t.Space, t.Local, NsRel)})
+				}
+			}
+		}
 		for _, d := range ct.DupKeys {
 			out = append(out, Problem{"content-types", "content-types/duplicate-key/" + Class(d), "duplicate " + d})
 		}
